@@ -124,7 +124,15 @@ impl binrw::BinWrite for Mso {
         // if we need to encode the string, we need to move the textstart transparently for the
         // user
         let textstart = if self.textstart > 0 {
-            let name = &self.msg[..self.textstart as usize];
+            // textstart must fall on a character boundary inside msg; refuse anything else
+            // instead of panicking on the slice
+            let pos = writer.stream_position()?;
+            let name = self.msg.get(..self.textstart as usize).ok_or_else(|| {
+                binrw::Error::AssertFail {
+                    pos,
+                    message: "textstart is not on a character boundary within msg".into(),
+                }
+            })?;
             let textstart = codepages::to_lossy_bytes(name).len();
 
             textstart as u8
